@@ -1751,12 +1751,26 @@ type slashCase struct {
 	Target  B // request target as sent on the request line (parsed by http.ReadRequest) …
 	Path    B // … or, when Target is empty, a URL built directly with this Path (a rewriting middleware upstream)
 	Query   B
+	// Extra request headers a client (or a proxy) may send: forwarded prefix / host / proto, rewrite headers, another
+	// Host — the Location depends on the request's own URL only, none of them is an input of the model
+	Extra [][2]string `json:",omitempty"`
 }
+
+var slashExtraPool = [][2]string{{"X-Forwarded-Prefix", "/\\evil.example"}, {"X-Forwarded-Prefix", "//evil.example"}, {"X-Forwarded-Prefix", "/app"},
+	{"X-Forwarded-Prefix", "https://evil.example"}, {"X-Forwarded-Host", "evil.example"}, {"X-Forwarded-Proto", "https"},
+	{"X-Forwarded-Proto", "javascript"}, {"X-Original-URL", "//evil.example/"}, {"X-Rewrite-URL", "/\\evil.example/"},
+	{"Forwarded", "host=evil.example;proto=https"}, {"X-Forwarded-Path", "//evil.example"}, {"X-Forwarded-Uri", "//evil.example/x/"},
+	{"Referer", "https://evil.example/"}, {"Origin", "https://evil.example"}, {"X-Forwarded-Port", "8443"}, {"X-Script-Name", "/\\evil.example"}}
 
 var segPool = []string{"a", "users", "evil.com", "", "", ".", "..", "%2f", "%2F", "%5c", "%5C", "\\", "a:b", "x y", "%20", "%", "%zz", "é", "%c3%a9", "*", "@", "a;b", "%00", "%09", "%3F", "%23", "#", "~", "+", "%2e%2e"}
 
 func genSlash(r *hx.Rand) *slashCase {
 	c := &slashCase{Variant: hx.Pick(r, []string{"N", "W"}), Policy: hx.Pick(r, []int{0, 0, 0, 1, 1, 1, 2, 3})}
+	if r.Chance(1, 4) {
+		for range r.Range(1, 2) {
+			c.Extra = append(c.Extra, hx.Pick(r, slashExtraPool))
+		}
+	}
 	n := r.Range(0, 4)
 	var b strings.Builder
 	for i := 0; i < n; i++ {
@@ -1805,6 +1819,16 @@ func genSlash(r *hx.Rand) *slashCase {
 }
 
 func (c *slashCase) request() (*http.Request, string) {
+	req, why := c.request0()
+	if req != nil {
+		for _, kv := range c.Extra {
+			req.Header.Set(kv[0], kv[1])
+		}
+	}
+	return req, why
+}
+
+func (c *slashCase) request0() (*http.Request, string) {
 	if len(c.Target) == 0 {
 		req := httptest.NewRequest(http.MethodGet, "/", nil)
 		req.URL = &url.URL{Path: string(c.Path), RawQuery: string(c.Query)}
@@ -1874,6 +1898,9 @@ func (c *slashCase) emit(id string, st *hx.Stats) string {
 			}
 		}
 		st.Case(in[len(id):]+" "+c.Variant, !plain || u.Host != "")
+		if len(c.Extra) > 0 {
+			st.Count("T.extra_request_headers")
+		}
 		st.Count("T.variant_" + c.Variant)
 		st.Count("T.policy_" + strconv.Itoa(c.Policy))
 		if strings.HasPrefix(path, "//") || strings.HasPrefix(path, "/\\") {
@@ -1939,6 +1966,9 @@ func fixedCases() []caseT {
 		{Kind: "T", Sl: &slashCase{Variant: "W", Policy: 0, Target: B("/\\evil.com/")}},
 		{Kind: "T", Sl: &slashCase{Variant: "W", Policy: 0, Target: B("/users/?page=2&sort=name")}},
 		{Kind: "T", Sl: &slashCase{Variant: "W", Policy: 0, Target: B("http://site.example//evil.com/")}},
+		// a forwarded prefix supplied by the client is not part of the request's own path
+		{Kind: "T", Sl: &slashCase{Variant: "N", Policy: 0, Target: B("/users/"), Extra: [][2]string{{"X-Forwarded-Prefix", "/\\evil.example"}}}},
+		{Kind: "T", Sl: &slashCase{Variant: "W", Policy: 1, Target: B("/users"), Extra: [][2]string{{"X-Forwarded-Host", "evil.example"}, {"X-Forwarded-Proto", "https"}}}},
 		// K17b: literal `Origin: *` reflected together with credentials
 		{Kind: "C", Cors: &corsCase{Opts: []corsOpt{{K: "A", B: true}, {K: "K", B: true}}, Origin: bp("*"), Method: "GET"}},
 		{Kind: "C", Cors: &corsCase{Opts: []corsOpt{{K: "O", L: []B{B("*")}}, {K: "K", B: true}}, Origin: bp("*"), Method: "GET"}},
